@@ -115,6 +115,8 @@ def static_only_observed(facts, path):
             _k, bi, t, ai = u
             n += 1
             nm = callee_name(t) or ''
+            if any(x in nm for x in _FMT_ARG):
+                continue            # the counters record itself handed to a log line (its Display reads the counters)
             if ai != 0 or 'atomic' not in nm.lower():
                 return False
             if nm.endswith(_ATOMIC_WRITES) or nm.endswith('::load'):
@@ -154,12 +156,21 @@ def _result_only_logged(facts, fn_body, depth):
     return True
 
 
+def _all_atomic(facts, ty):
+    """An atomic integer / bool, or a workspace struct all of whose fields are (a counters record)."""
+    if 'atomic::Atomic' in ty:
+        return True
+    a = facts.adts.get(facts.norm(ty).split('<')[0])
+    fl = (a or {}).get('fields') or []
+    return bool(fl) and all('atomic::Atomic' in (x.get('ty') or '') for x in fl)
+
+
 def static_problems(facts):
     out = []
     for s in facts.statics:
         if s['mutable']:
             out.append((s['path'], 'static mut'))
-        elif not s['freeze'] and 'atomic::Atomic' in s.get('ty', '') and not s['thread_local'] and \
+        elif not s['freeze'] and _all_atomic(facts, s.get('ty', '')) and not s['thread_local'] and \
                 static_only_observed(facts, s['path'].replace('packing::', '')):
             continue        # a counter that is only counted and reported
         elif not s['freeze']:
@@ -692,3 +703,7 @@ def run(ctx):
     # R8: setter fidelity of the builder (the seed given is the seed stored)
     from .common import builder_setters
     builder_setters(ctx, 'R8', ['seed'])
+    from .common import import_obligations
+    # the files written are a function of this run alone (C10.R3: created fresh, each at its own path)
+    import_obligations(ctx, 'C10', 'R9', only_rules={'R3'}, floor=4)
+
